@@ -27,6 +27,7 @@ import (
 	"runtime/metrics"
 	"sort"
 	"testing"
+	"testing/iotest"
 	"unsafe"
 
 	"github.com/postalsys/muti-metroo/internal/identity"
@@ -62,9 +63,30 @@ type zzvHostile struct {
 	Bound    int64 `json:"bound"`
 }
 
+// zzvStreamVec: a hostile frame header offered to both frame decode paths (spec section "streaming frame path")
+type zzvStreamVec struct {
+	H struct {
+		Claim struct {
+			C string `json:"c"`
+		} `json:"claim"`
+		Hdr   int    `json:"hdr"`
+		Avail string `json:"avail"`
+	} `json:"h"`
+	AvailBytes int    `json:"availbytes"`
+	Slice      string `json:"slice"`
+	Stream     string `json:"stream"`
+	AllocKiB   int64  `json:"allockib"`
+	BoundKiB   int64  `json:"boundkib"`
+	EncodeOK   bool   `json:"encodeok"`
+}
+
+var zzvClaims = map[string]uint32{"0": 0, "1": 1, "Max-1": MaxPayloadSize - 1, "Max": MaxPayloadSize,
+	"Max+1": MaxPayloadSize + 1, "2^31": 1 << 31, "2^32-1": 1<<32 - 1}
+
 type zzvCodecIn struct {
-	Vecs    []zzvVec     `json:"vecs"`
-	Hostile []zzvHostile `json:"hostile"`
+	Vecs    []zzvVec       `json:"vecs"`
+	Hostile []zzvHostile   `json:"hostile"`
+	Streams []zzvStreamVec `json:"streams"`
 }
 
 // ---------------------------------------------------------------------------------------------- content stream
@@ -719,6 +741,7 @@ func zzvHex(b []byte) string {
 
 type zzvStats struct {
 	evals, accepted, measured int
+	streamEvals               int
 	distinct                  map[[32]byte]struct{}
 	viol                      map[string]int
 	maxAlloc                  uint64
@@ -738,10 +761,97 @@ func (st *zzvStats) report(cls, ty, what string, in []byte, extra map[string]any
 	zzvEmit("viol", rec)
 }
 
+// the streaming decode path of a frame: FrameReader.Read over the bytes (EOF where the input ends)
+var zzvStreamCodec = zzvCodec{
+	enc: func(m any) []byte {
+		var buf bytes.Buffer
+		if err := NewFrameWriter(&buf).Write(m.(*Frame)); err != nil {
+			panic(err)
+		}
+		return buf.Bytes()
+	},
+	dec: func(b []byte) (any, error) { return zzvNil(NewFrameReader(bytes.NewReader(b)).Read()) },
+}
+
+// after a few violations of the streaming path it is no longer exercised (a reader that allocates what a
+// hostile header claims would otherwise allocate gigabytes for every random input)
+var zzvStreamViol int
+
+// zzvFramePaths offers the same bytes to FrameReader.Read; slice is the outcome of Decode on them.  Both paths
+// must agree on accept / reject and on the frame, the streaming path must not panic and must stay within the
+// allocation bound, also when the reader delivers one byte per Read call.
+func zzvFramePaths(st *zzvStats, in []byte, slice zzvOutcome, measure bool, origin string) {
+	if zzvStreamViol >= 3 {
+		return
+	}
+	st.streamEvals++
+	o := zzvDecode(zzvStreamCodec, in, measure)
+	bad := func(what string, extra map[string]any) {
+		zzvStreamViol++
+		if extra == nil {
+			extra = map[string]any{}
+		}
+		extra["origin"] = origin
+		extra["path"] = "FrameReader.Read"
+		if len(in) >= HeaderSize {
+			extra["claimed_length"] = binary.BigEndian.Uint32(in[2:6])
+		}
+		st.report("stream", "Frame", what, in, extra)
+	}
+	if measure && o.alloc > zzvAllocBound(len(in)) {
+		bad("allocation out of proportion", map[string]any{"alloc": o.alloc, "bound": zzvAllocBound(len(in))})
+		return
+	}
+	if o.panicv != nil {
+		bad(fmt.Sprintf("FrameReader.Read panics: %v", o.panicv), nil)
+		return
+	}
+	if slice.panicv != nil {
+		return // reported by the caller
+	}
+	if (o.err == nil) != (slice.err == nil) {
+		bad(fmt.Sprintf("decode paths disagree: Decode(slice) err=%v, FrameReader.Read err=%v", slice.err, o.err), nil)
+		return
+	}
+	if o.err == nil {
+		if zzvNormalize(o.msg) != zzvNormalize(slice.msg) {
+			bad("decode paths return different frames", nil)
+			return
+		}
+		// the writer side: FrameWriter.Write and WriteFrame produce exactly Frame.Encode
+		f := o.msg.(*Frame)
+		e1, _ := f.Encode()
+		var b2 bytes.Buffer
+		err2 := NewFrameWriter(&b2).WriteFrame(f.Type, f.Flags, f.StreamID, f.Payload)
+		if e3, pv := zzvEncode(zzvStreamCodec, f); pv != nil || err2 != nil || !bytes.Equal(e1, e3) || !bytes.Equal(e1, b2.Bytes()) {
+			bad(fmt.Sprintf("FrameWriter.Write / WriteFrame differ from Frame.Encode (panic=%v err=%v)", pv, err2), nil)
+			return
+		}
+	}
+	// the same bytes, one byte per Read call
+	if len(in) <= 600 || st.streamEvals%16 == 0 {
+		var o1 zzvOutcome
+		func() {
+			defer func() {
+				if r := recover(); r != nil {
+					o1.panicv = r
+				}
+			}()
+			o1.msg, o1.err = zzvNil(NewFrameReader(iotest.OneByteReader(bytes.NewReader(in))).Read())
+		}()
+		if o1.panicv != nil || (o1.err == nil) != (o.err == nil) || (o.err == nil && zzvNormalize(o1.msg) != zzvNormalize(o.msg)) {
+			bad(fmt.Sprintf("FrameReader.Read depends on how the stream is chunked (whole: err=%v, byte-wise: err=%v panic=%v)", o.err, o1.err, o1.panicv), nil)
+		}
+	}
+}
+
 // zzvHostileInput checks the second and third sentence of the property on one arbitrary input.
 func zzvHostileInput(st *zzvStats, ty string, c zzvCodec, in []byte, measure bool, origin string) {
 	st.evals++
 	o := zzvDecode(c, in, measure)
+	if ty == "Frame" {
+		zzvFramePaths(st, in, o, measure, origin)
+	}
 	if measure {
 		st.measured++
 		if o.alloc > st.maxAlloc {
@@ -833,7 +943,113 @@ func TestZZVCodec(t *testing.T) {
 	zzvEmit("sizes", map[string]any{"elem": []int{int(unsafe.Sizeof(RouteAdvertise{})), int(unsafe.Sizeof(RouteWithdraw{})),
 		int(unsafe.Sizeof(NodeInfoAdvertise{}))}})
 
-	shapes, prefixes, cellmuts, bytemuts, bindErr, legacy := 0, 0, 0, 0, 0, 0
+	// ---- hostile frame headers through both decode paths (spec: Streams), smallest claimed length first
+	frameCodec := zzvCodecs["Frame"]
+	sort.SliceStable(in.Streams, func(i, j int) bool {
+		return zzvClaims[in.Streams[i].H.Claim.C] < zzvClaims[in.Streams[j].H.Claim.C]
+	})
+	var streamRecs []map[string]any
+	streamBind := 0
+	allocBroken := false
+	encChecked := map[string]bool{}
+	for si, sv := range in.Streams {
+		claim, ok := zzvClaims[sv.H.Claim.C]
+		if !ok {
+			t.Fatalf("zzv: unknown length class %q", sv.H.Claim.C)
+		}
+		sr := mrand.New(mrand.NewSource(seed*31 + int64(si)))
+		hdr := make([]byte, HeaderSize)
+		hdr[0], hdr[1] = byte(sr.Intn(256)), byte(sr.Intn(256))
+		binary.BigEndian.PutUint32(hdr[2:6], claim)
+		binary.BigEndian.PutUint64(hdr[6:14], sr.Uint64())
+		input := append([]byte(nil), hdr[:sv.H.Hdr]...)
+		pay := make([]byte, sv.AvailBytes)
+		sr.Read(pay)
+		input = append(input, pay...)
+		st.evals++
+		slice := zzvDecode(frameCodec, input, false)
+		rec := map[string]any{"claim": sv.H.Claim.C, "hdr": sv.H.Hdr, "avail": sv.H.Avail, "bytes": len(input),
+			"spec_slice": sv.Slice, "spec_stream": sv.Stream}
+		res := func(o zzvOutcome) string {
+			switch {
+			case o.panicv != nil:
+				return "panic"
+			case o.err != nil:
+				return "err"
+			}
+			return "ok"
+		}
+		rec["slice"] = res(slice)
+		if slice.panicv != nil {
+			st.report("panic", "Frame", fmt.Sprintf("Decode panics: %v", slice.panicv), input, map[string]any{"origin": "stream-vector"})
+		}
+		if allocBroken && claim > MaxPayloadSize {
+			rec["stream"] = "skipped" // the reader already allocated what a smaller hostile header claimed
+			streamRecs = append(streamRecs, rec)
+			continue
+		}
+		// exact measurement around the FrameReader call
+		var a, b runtime.MemStats
+		var so zzvOutcome
+		func() {
+			defer func() {
+				if r := recover(); r != nil {
+					so.panicv = r
+				}
+			}()
+			rd := NewFrameReader(bytes.NewReader(input))
+			runtime.ReadMemStats(&a)
+			so.msg, so.err = zzvNil(rd.Read())
+			runtime.ReadMemStats(&b)
+			so.alloc = b.TotalAlloc - a.TotalAlloc
+		}()
+		st.streamEvals++
+		rec["stream"], rec["alloc"] = res(so), so.alloc
+		streamRecs = append(streamRecs, rec)
+		extra := map[string]any{"origin": "stream-vector", "path": "FrameReader.Read", "claimed_length": claim,
+			"header_bytes": sv.H.Hdr, "payload_bytes": sv.AvailBytes}
+		switch {
+		case so.panicv != nil:
+			zzvStreamViol++
+			st.report("stream", "Frame", fmt.Sprintf("FrameReader.Read panics: %v", so.panicv), input, extra)
+		case so.alloc > zzvAllocBound(len(input)):
+			zzvStreamViol++
+			allocBroken = true
+			extra["alloc"], extra["bound"] = so.alloc, zzvAllocBound(len(input))
+			st.report("stream", "Frame", "allocation out of proportion", input, extra)
+		case res(so) != res(slice):
+			zzvStreamViol++
+			st.report("stream", "Frame", fmt.Sprintf("decode paths disagree: Decode(slice) err=%v, FrameReader.Read err=%v", slice.err, so.err), input, extra)
+		case so.err == nil && zzvNormalize(so.msg) != zzvNormalize(slice.msg):
+			zzvStreamViol++
+			st.report("stream", "Frame", "decode paths return different frames", input, extra)
+		default:
+			// binding: both real paths behave as the transcription says
+			if res(slice) != sv.Slice || res(so) != sv.Stream {
+				streamBind++
+				if streamBind <= 3 {
+					zzvEmit("streambind", rec)
+				}
+			}
+		}
+		// encoder side, once per length class a test can materialise
+		if !encChecked[sv.H.Claim.C] && claim <= MaxPayloadSize+1 {
+			encChecked[sv.H.Claim.C] = true
+			f := &Frame{Type: hdr[0], Flags: hdr[1], StreamID: binary.BigEndian.Uint64(hdr[6:14]), Payload: make([]byte, claim)}
+			_, e1 := f.Encode()
+			var w1, w2 bytes.Buffer
+			e2 := NewFrameWriter(&w1).Write(f)
+			e3 := NewFrameWriter(&w2).WriteFrame(f.Type, f.Flags, f.StreamID, f.Payload)
+			okAll := e1 == nil && e2 == nil && e3 == nil
+			noneOK := e1 != nil && e2 != nil && e3 != nil && w1.Len() == 0 && w2.Len() == 0
+			if (sv.EncodeOK && !okAll) || (!sv.EncodeOK && !noneOK) {
+				st.report("stream", "Frame", fmt.Sprintf("encoders disagree with the maximum payload size: Encode err=%v Write err=%v WriteFrame err=%v (payload %d bytes)", e1, e2, e3, claim),
+					nil, map[string]any{"origin": "stream-vector", "path": "FrameWriter"})
+			}
+		}
+	}
+
+	shapes, prefixes, cellmuts, bytemuts, bindErr, legacy, framed := 0, 0, 0, 0, 0, 0, 0
 	perType := map[string]int{}
 	var sample []map[string]any
 	for vi, v := range in.Vecs {
@@ -927,6 +1143,21 @@ func TestZZVCodec(t *testing.T) {
 				}
 			}
 		} // m != nil
+		// the payload inside a frame, through both frame decode paths
+		if v.Ty != "Frame" && len(enc) <= MaxPayloadSize {
+			f := &Frame{Type: byte(rng.Intn(256)), Flags: byte(rng.Intn(4)), StreamID: rng.Uint64(), Payload: enc}
+			fb, ferr := f.Encode()
+			if ferr != nil {
+				st.report("stream", "Frame", "Frame.Encode rejects a payload within the maximum: "+ferr.Error(), enc, nil)
+			} else {
+				framed++
+				so := zzvDecode(frameCodec, fb, false)
+				if so.err != nil || so.panicv != nil || !bytes.Equal(so.msg.(*Frame).Payload, enc) {
+					st.report("roundtrip", "Frame", fmt.Sprintf("framed %s payload not returned by Decode (err=%v panic=%v)", v.Ty, so.err, so.panicv), fb, nil)
+				}
+				zzvFramePaths(st, fb, so, true, "framed-"+v.Ty)
+			}
+		}
 		if len(sample) < 4 && (vi%97 == 3 || v.Ty == "QueuedState" && len(enc) > 200 && len(enc) < 400 && len(sample) < 2) {
 			sample = append(sample, map[string]any{"ty": v.Ty, "sk": v.Sk, "len": len(enc), "bytes": zzvHex(enc)})
 		}
@@ -1086,7 +1317,9 @@ func TestZZVCodec(t *testing.T) {
 		viol += n
 	}
 	zzvEmit("summary", map[string]any{"shapes": shapes, "per_type": perType, "prefixes": prefixes, "cell_mutations": cellmuts,
-		"byte_mutations": bytemuts, "random_inputs": randoms, "legacy_shapes": legacy, "hostile": hostile, "evaluations": st.evals,
+		"byte_mutations": bytemuts, "random_inputs": randoms, "legacy_shapes": legacy,
+		"stream_vectors": len(in.Streams), "stream_results": streamRecs, "stream_path_evaluations": st.streamEvals,
+		"framed_shapes": framed, "stream_bind_errors": streamBind, "stream_violations": zzvStreamViol, "hostile": hostile, "evaluations": st.evals,
 		"accepted": st.accepted, "distinct_accepted": len(st.distinct), "alloc_measured": st.measured,
 		"max_alloc": st.maxAlloc, "max_alloc_type": st.maxAllocTy, "bind_errors": bindErr, "violations": viol,
 		"alloc_over_bound_unconfirmed": zzvUnconfirmed,
